@@ -1,0 +1,30 @@
+//go:build verif
+
+// Verification hooks (build tag "verif" only; never compiled into normal builds).
+
+package ctfe
+
+import (
+	"context"
+
+	"github.com/google/certificate-transparency-go/trillian/ctfe/cache"
+	"github.com/google/certificate-transparency-go/trillian/ctfe/storage"
+	"github.com/google/certificate-transparency-go/trillian/util"
+)
+
+// SetUpInstanceVerif builds an Instance exactly as SetUpInstance does and then
+// lets a verification harness inject a clock and/or an in-memory issuance chain
+// storage with a cache (the exported path only opens MySQL/PostgreSQL connections).
+func SetUpInstanceVerif(ctx context.Context, opts InstanceOptions, ts util.TimeSource, st storage.IssuanceChainStorage, c cache.IssuanceChainCache) (*Instance, error) {
+	inst, err := SetUpInstance(ctx, opts)
+	if err != nil {
+		return nil, err
+	}
+	if ts != nil {
+		inst.li.TimeSource = ts
+	}
+	if st != nil {
+		inst.li.issuanceChainService = newIndirectIssuanceChainService(st, c)
+	}
+	return inst, nil
+}
